@@ -57,6 +57,34 @@ func c07Universes(name string, lvl int, dirty func(string) bool) [][]string {
 			idx = append(idx, i)
 		}
 	}
+	// the whole clean universe first: if Compare is not a total preorder anywhere on it, the
+	// offending triple becomes the sort input (the stride sample below may not contain it)
+	{
+		fv := make([]eco.Ver, len(idx))
+		for k, i := range idx {
+			fv[k] = u.Vers[i]
+		}
+		fm := order.Build(fv)
+		fall := make([]int, len(fv))
+		for i := range fall {
+			fall[i] = i
+		}
+		if _, off, wit := fm.Rank(fall, 3); off > 0 && len(wit) > 0 {
+			w := []string{u.Strs[idx[wit[0].A]], u.Strs[idx[wit[0].B]], u.Strs[idx[wit[0].C]]}
+			for _, k := range []int{0, len(idx) / 2, len(idx) - 1} {
+				dup := false
+				for _, x := range w {
+					if x == u.Strs[idx[k]] {
+						dup = true
+					}
+				}
+				if !dup {
+					w = append(w, u.Strs[idx[k]])
+				}
+			}
+			return [][]string{w}
+		}
+	}
 	idx = stride(idx, 400)
 	vs := make([]eco.Ver, len(idx))
 	strs := make([]string, len(idx))
@@ -561,7 +589,7 @@ func c07Unit(name string, tier string) core.Unit {
 							return
 						}
 						_, looksSorted := parseQuotedList(resp.Out)
-						if resp.Panic != "" || resp.Code != 1 || looksSorted || !strings.Contains(resp.Out, "'"+b+"'") {
+						if resp.Panic != "" || resp.Code != 1 || looksSorted || !namesArgument(resp.Out, b) {
 							r.Violate(core.Violation{Property: "C07", Scope: name, Kind: "invalid-input", Inputs: append([]string{"cli"}, ll...),
 								Expected: "exit 1, a diagnostic naming the invalid argument, no result list", Got: fmt.Sprintf("code=%d panic=%q out=%q", resp.Code, resp.Panic, resp.Out)})
 						}
@@ -570,6 +598,13 @@ func c07Unit(name string, tier string) core.Unit {
 			}
 		}
 	}}
+}
+
+// namesArgument: the diagnostic contains the invalid argument, raw or as Go-quoted text (any
+// quoting style names it).
+func namesArgument(out, arg string) bool {
+	q := strconv.Quote(arg)
+	return strings.Contains(out, arg) || strings.Contains(out, q[1:len(q)-1])
 }
 
 // c07Universes16 returns 16 clean versions of distinct classes.
